@@ -349,7 +349,11 @@ func (s *v4Server) addLease(l *dhcpsvc.Lease) (err error) {
 	s.ipIndex[l.IP] = l
 
 	s.leases = append(s.leases, l)
-	s.leasedOffsets.set(offset, true)
+	if inOffset {
+		// A static lease may lie outside of the dynamic range, in which case
+		// offset is zero and must not mark the start of the range as leased.
+		s.leasedOffsets.set(offset, true)
+	}
 
 	return nil
 }
